@@ -118,6 +118,20 @@ def spec_key(spec: t.Any) -> str:
     return hashlib.sha1(codec.dumps(spec).encode()).hexdigest()[:10]
 
 
+_GBOX: t.List[t.Any] = []
+
+
+def gbox() -> t.Any:
+    """One generic pane dataclass for the whole process: class GBox(PaneBase, Generic[T]): value: T.  Its parametrizations
+    GBox[int], GBox[float], ... are different types with one unparametrized class behind them."""
+    if not _GBOX:
+        import pane
+        import types as _types
+        GT = t.TypeVar('GT')
+        _GBOX.append(_types.new_class('GBox', (pane.PaneBase, t.Generic[GT]), {}, lambda ns: ns.update({'__annotations__': {'value': GT}, '__module__': 'pv.generated'})))
+    return _GBOX[0]
+
+
 def _has_structured(n: Node) -> bool:
     return any(x.kind in ('dataclass', 'tagged', 'ValueOrList', 'ndarray') for x in n.walk())
 
@@ -769,3 +783,19 @@ def tagged_specs(draw, field_types: st.SearchStrategy[t.Any]) -> t.Any:
     if draw(st.integers(0, 3)) == 3:
         variants.append(derived_variant(variants[0], 0, tag, vals[nvar]))
     return ('tagged', layout, tag, tuple(variants))
+
+
+class GBoxNode(ClsNode):
+    """('gbox', inner spec): the parametrization GBox[inner] of the process-wide generic dataclass; modelled as a one-field class."""
+
+    def __init__(self, spec):
+        inner = spec[1]
+        super().__init__(('cls', {'name': 'GBox', 'fields': [{'name': 'value', 'type': inner}], 'opts': {}}))
+        self.spec = spec
+        self.inner_spec = inner
+
+    def render(self):
+        return f"GBox[{self.declared[0].node.render()}]"
+
+    def build(self):
+        return gbox()[self.declared[0].node.pytype()]
